@@ -24,6 +24,13 @@
 (*   CliRecvResp  processReceivedMessage(Block2): re-request at             *)
 (*                bytesHeld / Size(szx)                                     *)
 (*   SrvRecvNext  continueSendingMessage for GET with Block2                *)
+(* Representations: every execution of the server application produces a  *)
+(* new representation (version = number of executions so far, carried as    *)
+(* ETag); the server's send buffer holds one version; "lose" = the buffer   *)
+(* times out, so a later block request of a GET executes the application    *)
+(* again and is answered from the NEW version.  The client compares the     *)
+(* ETag of every block with the one its reassembly started with: a change   *)
+(* empties the file (and so re-requests from block 0) - RFC 7959 2.4.       *)
 (* Guard is the repair of the final-block replay (D11): a Block1        *)
 (* request with num > 0 and no reassembly state is refused with 4.08.       *)
 (***************************************************************************)
@@ -41,9 +48,12 @@ HasBlk(b) == b.szx # -1
 Blk(s, n, m) == [szx |-> s, num |-> n, more |-> m]
 
 \* a message: dir "c2s"/"s2c", kind, Block1 / Block2 option, payload interval of the SENDER's body
-Msg(dir, kind, b1, b2, pay) == [dir |-> dir, kind |-> kind, b1 |-> b1, b2 |-> b2, pay |-> pay]
+MsgV(dir, kind, b1, b2, pay, ver) == [dir |-> dir, kind |-> kind, b1 |-> b1, b2 |-> b2, pay |-> pay, ver |-> ver]
+Msg(dir, kind, b1, b2, pay) == MsgV(dir, kind, b1, b2, pay, 0)
 None == <<0, 0>>
 Piece(pos, iv) == <<pos, iv[1], iv[2]>>
+PieceV(pos, iv, ver) == <<pos, iv[1], iv[2], ver>>              \* a piece of version ver of the response body
+OneVersion(f) == \A a, b \in 1..Len(f) : f[a][4] = f[b][4]
 HeldBytes(f) == IF f = <<>> THEN 0 ELSE f[Len(f)][1] + (f[Len(f)][3] - f[Len(f)][2])
 \* the file is exactly [0, n): every piece sits where its content belongs and they are contiguous
 RECURSIVE ExactFrom(_, _, _)
@@ -53,8 +63,8 @@ FileIs(f, n) == ExactFrom(f, 1, 0) /\ HeldBytes(f) = n
 
 S0(p) == [c2s |-> <<>>, s2c |-> <<>>, sent |-> <<>>,       \* channel queues and everything ever sent (for replays)
        faults |-> p.Faults,
-       cli |-> [st |-> "idle", file |-> <<>>, rszx |-> -1],   \* st: idle | up (sending body) | wait (request done, response pending) | down (receiving) | done | failed
-       srv |-> [file |-> <<>>, rcv |-> FALSE, sending |-> FALSE],
+       cli |-> [st |-> "idle", file |-> <<>>, rszx |-> -1, etag |-> 0],   \* st: idle | up (sending body) | wait (request done, response pending) | down (receiving) | done | failed
+       srv |-> [file |-> <<>>, rcv |-> FALSE, sending |-> FALSE, sver |-> 0],
        app |-> <<>>,       \* server application deliveries: each is the reassembly file handed to the handler
        got |-> <<>>,       \* client application deliveries (response bodies returned from Do)
        dead |-> FALSE]     \* the client side gave up the sending state after an error (the caller will time out)
@@ -83,31 +93,33 @@ CliRecvResp(p, s, m) ==
   IF s.cli.st \notin {"up", "wait", "down"}
   THEN \* nobody is waiting: a block of a response body cannot be paired with a request -> the layer answers 4.08
        IF HasBlk(m.b2) THEN Send(s, Msg("c2s", "incomplete", NoBlk, NoBlk, None)) ELSE s
-  ELSE IF ~HasBlk(m.b2) THEN [s EXCEPT !.cli.st = "done", !.got = Append(s.got, <<Piece(0, m.pay)>>)]
+  ELSE IF ~HasBlk(m.b2) THEN [s EXCEPT !.cli.st = "done", !.got = Append(s.got, <<PieceV(0, m.pay, m.ver)>>)]
   ELSE LET fresh == s.cli.st # "down"
            szx == IF fresh THEN Min(m.b2.szx, p.CS) ELSE m.b2.szx
-           file == IF fresh THEN <<>> ELSE s.cli.file
+           changed == ~fresh /\ m.ver # s.cli.etag                    \* the representation changed: drop what is held
+           file == IF fresh \/ changed THEN <<>> ELSE s.cli.file
            held == HeldBytes(file)
            off == m.b2.num * Size(szx) IN
-       IF fresh /\ ~m.b2.more THEN [s EXCEPT !.cli.st = "done", !.got = Append(s.got, <<Piece(0, m.pay)>>)]
-       ELSE LET file2 == IF off = held THEN Append(file, Piece(off, m.pay)) ELSE file
+       IF fresh /\ ~m.b2.more THEN [s EXCEPT !.cli.st = "done", !.got = Append(s.got, <<PieceV(0, m.pay, m.ver)>>)]
+       ELSE LET file2 == IF off = held THEN Append(file, PieceV(off, m.pay, m.ver)) ELSE file
                 held2 == HeldBytes(file2)
                 rs == Min(szx, p.CS) IN
             IF off = held /\ ~m.b2.more
             THEN [s EXCEPT !.cli.st = "done", !.cli.file = <<>>, !.got = Append(s.got, file2)]
-            ELSE Send([s EXCEPT !.cli.st = "down", !.cli.file = file2],
+            ELSE Send([s EXCEPT !.cli.st = "down", !.cli.file = file2, !.cli.etag = m.ver],
                       Msg("c2s", "req", NoBlk, Blk(rs, held2 \div Size(rs), m.b2.more), None))
 
 (* --------------------------------- server --------------------------------- *)
 \* the application handler ran on a (complete) request: produce the response, block-wise if needed.
 \* maxs: the SZX in force (server maximum, lowered to the request's block SZX); num: block asked for by the request
 SrvAnswer(p, s, maxs, num) ==
-  IF p.L2 < Size(maxs) THEN Send(s, Msg("s2c", "resp", NoBlk, NoBlk, <<0, p.L2>>))
+  LET v == Len(s.app) IN          \* every execution of the application yields a new representation
+  IF p.L2 < Size(maxs) THEN Send(s, MsgV("s2c", "resp", NoBlk, NoBlk, <<0, p.L2>>, v))
   ELSE LET off == num * Size(maxs)
            b == Min(p.L2, off + Buf(maxs, p.SMMS)) IN
        IF off > p.L2 THEN s                                                  \* cannot seek: error, nothing is sent
        ELSE IF s.srv.sending THEN Send(s, Msg("s2c", "incomplete", NoBlk, NoBlk, None))   \* a response for this token is still held: startSendingMessage fails
-       ELSE Send([s EXCEPT !.srv.sending = TRUE], Msg("s2c", "resp", NoBlk, Blk(maxs, off \div Size(maxs), b # p.L2), <<off, b>>))
+       ELSE Send([s EXCEPT !.srv.sending = TRUE, !.srv.sver = v], MsgV("s2c", "resp", NoBlk, Blk(maxs, off \div Size(maxs), b # p.L2), <<off, b>>, v))
 
 SrvRecvReq(p, s, m) ==
   IF HasBlk(m.b2) /\ ~HasBlk(m.b1)
@@ -117,7 +129,7 @@ SrvRecvReq(p, s, m) ==
                 off == m.b2.num * Size(szx)
                 b == Min(p.L2, off + Buf(szx, p.SMMS)) IN
             IF off > p.L2 THEN [s EXCEPT !.srv.sending = FALSE]
-            ELSE Send([s EXCEPT !.srv.sending = (b # p.L2)], Msg("s2c", "resp", NoBlk, Blk(szx, off \div Size(szx), b # p.L2), <<off, b>>))
+            ELSE Send([s EXCEPT !.srv.sending = (b # p.L2)], MsgV("s2c", "resp", NoBlk, Blk(szx, off \div Size(szx), b # p.L2), <<off, b>>, s.srv.sver))
        \* no response is held any more: a GET is simply served again from that block; a POST/PUT (the scenario has a
        \* request body) must not be executed again, with an empty body - the repaired code refuses it with 4.08
        ELSE IF p.Guard /\ p.L > 0 /\ m.b2.num > 0 THEN Send(s, Msg("s2c", "incomplete", NoBlk, NoBlk, None))
@@ -155,16 +167,21 @@ Drop(p, s, d) == IF s.faults = 0 THEN {}
               ELSE (IF s.s2c = <<>> THEN {} ELSE {[s EXCEPT !.s2c = Tail(s.s2c), !.faults = s.faults - 1]})
 Replay(p, s, k) == IF s.faults = 0 \/ k > Len(s.sent) THEN {} ELSE {Recv(p, [s EXCEPT !.faults = s.faults - 1], s.sent[k])}
 
-Acts == {[a |-> "start", d |-> "c2s", k |-> 0]}
+\* the server's buffers time out (block-wise transfer timeout): the held response and any reassembly state are gone
+Lose(p, s) == IF s.faults = 0 \/ ~(s.srv.sending \/ s.srv.rcv) THEN {}
+              ELSE {[s EXCEPT !.faults = s.faults - 1, !.srv.sending = FALSE, !.srv.rcv = FALSE, !.srv.file = <<>>]}
+
+Acts == {[a |-> "start", d |-> "c2s", k |-> 0], [a |-> "lose", d |-> "c2s", k |-> 0]}
         \cup {[a |-> x, d |-> d, k |-> 0] : x \in {"deliver", "dup", "drop"}, d \in {"c2s", "s2c"}}
         \cup {[a |-> "replay", d |-> "c2s", k |-> k] : k \in 1..12}
 Apply(p, s, a) == CASE a.a = "start" -> CliStart(p, s) [] a.a = "deliver" -> Deliver(p, s, a.d) [] a.a = "dup" -> Dup(p, s, a.d)
-                 [] a.a = "drop" -> Drop(p, s, a.d) [] a.a = "replay" -> Replay(p, s, a.k)
+                 [] a.a = "drop" -> Drop(p, s, a.d) [] a.a = "replay" -> Replay(p, s, a.k) [] a.a = "lose" -> Lose(p, s)
 
 (* ----------------------------------- C04 ---------------------------------- *)
 \* every delivery to the server application is the exact request body; every body returned to the caller is the exact response body
 ExactUp(p, s)   == \A k \in 1..Len(s.app) : (s.app[k] = <<>> /\ p.L = 0) \/ FileIs(s.app[k], p.L)
-ExactDown(p, s) == \A k \in 1..Len(s.got) : FileIs(s.got[k], p.L2)
+\* ... of ONE representation the application produced (never a mixture of two, never zeros in place of bytes)
+ExactDown(p, s) == \A k \in 1..Len(s.got) : FileIs(s.got[k], p.L2) /\ OneVersion(s.got[k]) /\ s.got[k][1][4] \in 1..Len(s.app)
 \* at most one delivery per transfer when nothing is replayed or duplicated towards the server
 OnceUp(s)    == Len(s.got) <= 1
 Completed(s) == s.cli.st = "done"
